@@ -45,8 +45,10 @@ def build_hds(states, slots, spc, version=2, size_sectors=None, layer=1, skew=0,
         data_off = (hdr_end + 511) // 512
     # version 1 keeps the sector count in 32 bits; the dword behind it is unused by the format and not necessarily zero
     size_field = size_sectors if version == 2 else ((size_sectors & 0xFFFFFFFF) | (0xA5C3F00D << 32))
-    hdr = struct.pack(HDR, SIG[version], 2, 16, max(1, size_sectors // (16 * 32)), spc, bat_entries, size_field, 0,
-                      data_off, 0, 0)
+    # inuse = 0x746F6E59 ("Yngt": the image was not closed cleanly) on the images with an odd sector count: nothing a reader
+    # of the data has to care about
+    hdr = struct.pack(HDR, SIG[version], 2, 16, max(1, size_sectors // (16 * 32)), spc, bat_entries, size_field,
+                      0x746F6E59 if size_sectors % 2 else 0, data_off, 0, 0)
     img = Image("hds")
     img.put(0, hdr)
     img.put(64, struct.pack(f"<{bat_entries}I", *(entries + [0] * (bat_entries - n))))
